@@ -34,7 +34,7 @@ type bdBeacon struct {
 }
 
 // bdPool: identities Q0 = X#1 (1 AS entry, received on 11), Q1 = X#3>M#5,6 (2 entries, received on 12, long
-// lifetime), Q2 = Y#1>M#7,6 (2 entries, other ISD, received on 12 as well). Versions v0/v1/v2 = info timestamps
+// lifetime), Q2 = Y#1>M#7,6 (2 entries, Y = X in another ISD, received on 12 as well). Versions v0/v1/v2 = info timestamps
 // T0, T0+1000 s, T0+2000 s; Q0v2 arrives on interface 13 (the stored ingress must follow the stored version).
 func bdPool(thorough bool) []*bdBeacon {
 	type idDef struct {
@@ -256,7 +256,7 @@ func bdDims(cfg *bdCfg) (ids [][][]byte, starts [][]addr.IA, ins [][]uint16, usa
 		}
 	}
 	ids = [][][]byte{nil, {q0}, {q1[:2], []byte("no such id")}}
-	starts = [][]addr.IA{nil, {iaX}, {addr.MustIAFrom(0, iaX.AS())}, {addr.MustParseIA("2-0")}, {iaY, iaB}, {0}}
+	starts = [][]addr.IA{nil, {iaX}, {addr.MustIAFrom(0, iaX.AS())}, {addr.MustParseIA("2-0")}, {iaY, iaB}, {0}, {iaY}, {iaM}}
 	ins = [][]uint16{nil, {11}, {12, 13}, {42}}
 	usages = [][]beacon.Usage{nil, {beacon.UsageUpReg}, {beacon.UsageDownReg, beacon.UsageProp},
 		{beacon.UsageUpReg | beacon.UsageProp}, {beacon.UsageCoreReg}}
